@@ -5,7 +5,7 @@ from typing import TYPE_CHECKING
 
 from funtracks.exceptions import InvalidActionError
 
-from ..actions._base import ActionGroup
+from ..actions._base import ActionGroup, atomic
 from ..actions.add_delete_edge import AddEdge
 from ..actions.update_track_id import UpdateTrackIDs
 from .user_delete_edge import UserDeleteEdge
@@ -27,6 +27,7 @@ class UserAddEdge(ActionGroup):
             Defaults to True.
     """
 
+    @atomic
     def __init__(
         self,
         tracks: SolutionTracks,
